@@ -245,6 +245,22 @@ def run(tier, seed):
             if nv["outcome"] != "passed":
                 sob.update({"verdict": "inconclusive", "message": "the obligation is discharged but a real node keeps bytes of an interrupted transfer: %s" % nv["message"]})
     obligations.append(sob)
+    # what the snapshot a follower installs CONTAINS: the leader's components write their records, the follower's load them - the data C08 names
+    # (configuration, namespace and user data). The same obligations decide the restart form of this round trip under C01.
+    from . import c01cfg, c01ns, c01table
+    from lib import native
+    for mod, name, what in ((c01cfg, "s08_4_config_records", "configuration data"), (c01ns, "s08_5_namespace_records", "namespace data"), (c01table, "s08_6_user_records", "user data")):
+        cob = mod.run(tier, seed)
+        cob.pop("_ok_paths", None)
+        cob["harness"] = name
+        cob["bound"] = "leader builds its snapshot records, follower loads them (%s): %s" % (what, cob.get("bound", ""))
+        if cob.get("verdict") == "violation":
+            cob["message"] = cob["message"].replace("after a restart from the snapshot", "on a follower that installed the leader's snapshot").replace("before the stop", "on the leader")
+            if not os.environ.get("VERIF_NO_NATIVE"):
+                path = native.write_replay("C08", "c08", "model", [], {"engine": "smt", "mode": "model-only", "obligation": name, "message": cob["message"], "model": cob.get("counterexample")})
+                cob["replay_path"] = path
+                cob["replay"] = {"path": path, "outcome": "model-only", "message": "write history on the leader before its snapshot is built"}
+        obligations.append(cob)
     info["wall_s"] = round(time.time() - t0, 1)
     return {"obligations": obligations, "info": info}
 
